@@ -122,7 +122,24 @@ class M1A(nn.Module):
         return self.fc(torch.relu(self.c0(x) + self.c1(x)).flatten(1))
 
 
-FAMILIES = {'MD': MD, 'MA': MA, 'ML': ML, 'M1D': M1D, 'MR': MR, 'M1A': M1A}
+class MF(nn.Module):
+    """2D stem -> ReLU -> flatten(2) (channels kept, spatial dims merged) -> 1D residual block whose skip is the flattened stem -> conv -> linear:
+    both operands of the sum must keep the same alive channels under per-channel pruning (one shared weight quantizer)"""
+
+    def __init__(self, C=2, T=2):
+        super().__init__()
+        self.stem = nn.Conv2d(1, C, 1)
+        self.a = nn.Conv1d(C, C, 1)
+        self.c = nn.Conv1d(C, 2, 1)
+        self.fc = nn.Linear(2 * T, 2)
+
+    def forward(self, x):
+        y = torch.relu(self.stem(x)).flatten(2)
+        z = torch.relu(self.a(y)) + y
+        return self.fc(torch.relu(self.c(z)).flatten(1))
+
+
+FAMILIES = {'MD': MD, 'MA': MA, 'ML': ML, 'M1D': M1D, 'MR': MR, 'M1A': M1A, 'MF': MF}
 
 
 def prog_id(spec):
@@ -146,6 +163,8 @@ def build(spec, seed=0):
         shape = (spec.get('cin', 1), spec.get('HW', 3), spec.get('HW', 3))
     elif fam == 'MA':
         shape = (spec.get('cin', 1), spec.get('HW', 2), spec.get('HW', 2))
+    elif fam == 'MF':
+        shape = (1, spec.get('T', 2), 1)
     elif fam == 'ML':
         shape = (spec.get('nin', 3),)
     else:
